@@ -6,6 +6,8 @@ import SecsModel.Model.SecsHandle
 `secshandle handle <host|equipment> <wGate 0|1><abortAny 0|1> <selected 0|1> <COMM> <waiting sys,sys|-> <user s.f,s.f|->
                    <outcome none|raises|reply.<s>.<f>|rtr.<s>.<f>> <s> <f> <w> <sys> <header hex>`
 answer `ok <frame>;<frame>…` with `<frame> = D.<s>.<f>.<w>.<sys>.<fn|E|H<hex>>` or `R.<sys>`
+`secshandle handlex <extra catalogue s.f,…|-> …` is `handle` with functions the application added to the catalogue
+(`streams_functions.update`) — the reply depends on the catalogue and the callbacks at the time of the message;
 `secshandle which <host|equipment> <user s.f,…|-> <s> <f>` → `ok user|builtin|none` (which callable `_call` runs);
 `secshandle builtin <host|equipment>`, `secshandle catalogue`, `secshandle f0` list the generated facts.
 -/
@@ -49,6 +51,15 @@ def handle : List String → String
                          wGate := fl.getD 0 '0' == '1', abortAny := fl.getD 1 '0' == '1' }
       "ok " ++ ";".intercalate ((Model.SecsHandle.handle env ⟨s, f, w, sys, hdr⟩).map showFrame)
     | _, _, _, _, _, _, _, _, _, _, _ => "bad-op"
+  | ["handlex", extra, cls, flags, sel, comm, waiting, user, outcome, s, f, w, sys, hdr] =>
+    match parsePairs extra, builtinOf cls, parseBool sel, Comm.ofName comm, parseNats waiting, parsePairs user, parseOutcome outcome,
+          s.toNat?, f.toNat?, parseBool w, sys.toNat?, hexToBytes hdr with
+    | some extra, some bi, some sel, some comm, some waiting, some user, some oc, some s, some f, some w, some sys, some hdr =>
+      let fl := flags.toList
+      let env : Env := { selected := sel, waiting := waiting, comm := comm, user := user, builtin := bi, catalogue := Gen.Callbacks.catalogue ++ extra, outcome := fun _ => oc,
+                         wGate := fl.getD 0 '0' == '1', abortAny := fl.getD 1 '0' == '1' }
+      "ok " ++ ";".intercalate ((Model.SecsHandle.handle env ⟨s, f, w, sys, hdr⟩).map showFrame)
+    | _, _, _, _, _, _, _, _, _, _, _, _ => "bad-op"
   | ["which", cls, user, s, f] =>
     match builtinOf cls, parsePairs user, s.toNat?, f.toNat? with
     | some bi, some user, some s, some f =>
